@@ -39,13 +39,30 @@ pub unsafe extern "C" fn getrandom(buf: *mut u8, len: usize, _flags: u32) -> isi
 /// Wall-clock seam: `SystemTime::now()` (the `connectedSince` entries, JWT expiry checks) reads
 /// CLOCK_REALTIME through this symbol. Inside a simulation it is a fixed epoch plus simulated
 /// time; every other clock, and every call outside a simulation, goes to the kernel.
+///
+/// The monotonic clocks are simulated as well: code under test that reads `std::time::Instant`
+/// (the orchestrator's leader keeps the time of the last heartbeat answer of every peer that way)
+/// would otherwise compare real elapsed time with its time-outs, and a run would depend on how
+/// busy the machine is. tokio's paused clock never reads the OS clock, so simulated time can be
+/// derived from it here; the guard keeps the one path that does (no runtime entered yet) from
+/// recursing.
 #[unsafe(no_mangle)]
 pub unsafe extern "C" fn clock_gettime(clk: libc::clockid_t, ts: *mut libc::timespec) -> libc::c_int {
-    if clk == libc::CLOCK_REALTIME && simcore::ctx::installed() {
+    thread_local! {
+        static IN_CLOCK: std::cell::Cell<bool> = const { std::cell::Cell::new(false) };
+    }
+    let simulated = matches!(
+        clk,
+        libc::CLOCK_REALTIME | libc::CLOCK_MONOTONIC | libc::CLOCK_MONOTONIC_RAW | libc::CLOCK_MONOTONIC_COARSE | libc::CLOCK_BOOTTIME
+    );
+    if simulated && !IN_CLOCK.with(|c| c.get()) && simcore::ctx::installed() {
+        IN_CLOCK.with(|c| c.set(true));
         let us = simcore::ctx::now_us();
-        const EPOCH: i64 = 1_767_225_600; // 2026-01-01T00:00:00Z
+        IN_CLOCK.with(|c| c.set(false));
+        // wall clock: 2026-01-01T00:00:00Z; monotonic clocks: an arbitrary positive origin
+        let origin: i64 = if clk == libc::CLOCK_REALTIME { 1_767_225_600 } else { 1_000_000 };
         unsafe {
-            (*ts).tv_sec = EPOCH + (us / 1_000_000) as i64;
+            (*ts).tv_sec = origin + (us / 1_000_000) as i64;
             (*ts).tv_nsec = ((us % 1_000_000) * 1000) as i64;
         }
         return 0;
